@@ -5,6 +5,8 @@ package main
 import (
 	"verif/sim/kit"
 
+	_ "verif/props/enet"
+	_ "verif/props/eobj"
 	_ "verif/props/eserial"
 )
 
